@@ -217,6 +217,15 @@ class Scen(CompScenario):
             lg.propagate = False
             lg.setLevel(1)  # custom levels below DEBUG are records too
             lg.addHandler(self.handler)
+        # Python-side logging configuration of the user: some loggers hushed (their records are dropped by Python's
+        # logging and never reach a handler).  Whether a record is *shown* is the user's business; an ERROR-level
+        # record still ends the simulation.  Levels are set for every logger in every run (nothing leaks between runs).
+        self.hushed = set(c.get("hush") or [])
+        for k, name in enumerate(LOGGERS):
+            if name not in (ROOT_NS, LOGGERS[GLOBAL]):
+                logging.getLogger(name).setLevel(logging.NOTSET)
+        for k in sorted(self.hushed):
+            logging.getLogger(LOGGERS[k]).setLevel(logging.CRITICAL + 20)
 
         # a share of the runs: the library's HDL back end prints the same records next to the logging process
         self.hdl = c.get("hdl")
@@ -460,9 +469,13 @@ class Scen(CompScenario):
         self.seen = len(self.captured)
         calls = self.err_calls[self.err_seen:]
         self.err_seen = len(self.err_calls)
-        want = self.pending
+        want_all = self.pending
         self.pending = []
-        want_err = [r for r in want if r[2] >= logging.ERROR]
+        want_err = [r for r in want_all if r[2] >= logging.ERROR]
+        # what a handler can see: records of loggers the (simulated) user hushed in Python's logging are dropped there
+        want = [r for r in want_all if logging.getLogger(r[1]).isEnabledFor(r[2])] if self.hushed else want_all
+        if len(want) != len(want_all):
+            self.hit("record_hushed_by_python_logging_configuration")
         fatal = self.cfg["fatal"]
 
         for r in new:
@@ -487,8 +500,11 @@ class Scen(CompScenario):
                 self.expect(bool(calls), "on-error-mismatch", f"cycle {cycle}: no on_error call before the end")
             self.expect(match_records(new, want) is not None, "report-mismatch",
                         f"cycle {cycle}: reported {new!r}, trigger∧context gives {want!r}")
-            self.expect(bool(new) and new[-1][2] >= logging.ERROR, "report-mismatch",
-                        f"cycle {cycle}: the failure was not preceded by its ERROR-level record: {new!r}")
+            if all(r in want for r in want_err):  # (a hushed one may be the one that ended the run)
+                self.expect(bool(new) and new[-1][2] >= logging.ERROR, "report-mismatch",
+                            f"cycle {cycle}: the failure was not preceded by its ERROR-level record: {new!r}")
+            else:
+                self.hit("hushed_error_record_ended_run")
             self.ended = True
             self.hit("failure_ended_run")
             return
@@ -649,6 +665,8 @@ class Scen(CompScenario):
     def after_sim(self):
         for name in (ROOT_NS, LOGGERS[GLOBAL]):
             logging.getLogger(name).removeHandler(self.handler)
+        for name in LOGGERS:
+            logging.getLogger(name).setLevel(1 if name in (ROOT_NS, LOGGERS[GLOBAL]) else logging.NOTSET)
         self.notes["records"] = len(self.captured)
         self.notes["failed_at"] = self.failed_at
 
@@ -801,6 +819,8 @@ class Prop(PropBase):
         # fatal runs: half of them with the logging process + on_error the library's test case builds
         cfg["real_tc"] = int(fatal and rng.random() < 0.5)
         cfg["lvl_text"] = rng.choice(["num", "upper", "lower"])
+        # a share of the runs: the user has hushed one or two loggers in Python's logging configuration
+        cfg["hush"] = sorted(rng.sample(range(len(LOGGERS)), rng.choice([1, 1, 2]))) if rng.random() < 0.2 else []
         # a share of the runs: the HDL print back end next to the logging process
         cfg["hdl"] = None
         if rng.random() < 0.15:
